@@ -17,7 +17,7 @@ VARIABLES flt, i0, w, h
 vars == <<flt, i0, w, h>>
 Init == flt = "none" /\ i0 = 0 /\ w = 0 /\ h = <<>>
 Next == \/ flt = "none" /\ flt' \in {"box", "vec"} /\ i0' \in 1..M /\ w' \in 1..Len(Weights) /\ h' = h
-        \/ flt # "none" /\ Len(h) < D /\ UNCHANGED <<flt, i0, w>> /\ \E op \in OpsOver(M) : h' = Append(h, op)
+        \/ flt # "none" /\ Len(h) < D /\ UNCHANGED <<flt, i0, w>> /\ \E op \in OpsOver(M) \cup (IF flt = "vec" THEN ReinitOps(M) ELSE {}) : h' = Append(h, op)
 Spec == Init /\ [][Next]_vars
 Emit == (flt # "none" /\ Len(h) = D) =>
         PrintT(<<"REPLAY", ToJson([kind |-> "proto", filter |-> flt, i0 |-> i0, w |-> Weights[w], ops |-> h,
